@@ -19,6 +19,11 @@ CHECKS = {
    "Six scenarios (lookups || add/update/delete incl. rejected change, two providers, two writers on one source) are executed under every schedule with <=2 (quick) / <=3 (thorough) preemptions on the real repository code with a scheduling point before every statement and at every lock operation; every execution's history and quiescent final state must be linearizable w.r.t. the repository's own sequential behaviour; deadlocks and panics are violations; data races are observed by a separate free-running pass of the same bodies under the race detector.",
    "Code between scheduling points is assumed atomic (closed by the race pass, which is dynamic); RWMutex modelled without writer preference; <=3 threads; failing schedules are replayed twice for determinism before being reported.",
    "DESIGN.md 4 C07"),
+ "C16": ("model_checking", "sched",
+   "stateless model checking of the instrumented real JWT signer (all schedules of sign || reload || JWKS read up to a preemption bound) plus bounded exhaustive enumeration of key-store/claims/TTL configurations through the real finalizer with a frozen clock; separate free-running -race pass",
+   "Every schedule with <=2 (quick) / <=3 (thorough) preemptions of token creation, key-store reload and a JWKS read through the management handler is executed on the real signer code (scheduling point before every statement and lock operation); every token must verify under the key published for its kid within one complete published key set and respect real-time order w.r.t. the reload; the full configuration product checks system claims, key id/algorithm and absence of private JWK members against the body of the real JWKS endpoint.",
+   "go-jose and key parsing run atomically between scheduling points (closed by the dynamic race pass); the key file is switched before the reload thread starts; verification of tokens uses go-jose's verifier with keys taken from the JWKS body.",
+   "DESIGN.md 4 C16"),
 }
 
 NOT_YET = {
